@@ -602,13 +602,15 @@ pub fn run_reload(r: &mut Rng, n: usize, out: &mut Out) {
         let answers: Vec<String> = qs.iter().map(|q| { qid += 1; format!("{}>{}", qid, ask(&server, q, qid)) }).collect();
         steps_in.push(format!("init@{}@{}", show_files(&files), qs.iter().map(c::question).collect::<Vec<_>>().join("+")));
         steps_out.push(format!("-@{}", answers.join("+")));
+        let mut fresh = 100usize;
         for _ in 0..r.range(1, 5) {
             // edits
             for _ in 0..r.range(1, 2) {
                 match r.below(6) {
                     0 | 1 => {
                         let f = new_zone(r, &mut owners);
-                        let name = format!("{}n{}.zone", (b'a' + r.below(20) as u8) as char, files.len());
+                        fresh += 1; // never reuse a file name inside one history
+                        let name = format!("{}n{}.zone", (b'a' + r.below(20) as u8) as char, fresh);
                         write_file(&zdir, &name, &f);
                         files.push((name, f));
                     }
@@ -625,7 +627,8 @@ pub fn run_reload(r: &mut Rng, n: usize, out: &mut Out) {
                     }
                     4 if !files.is_empty() && r.chance(1, 3) => {
                         // an unreadable entry: a dangling symbolic link in the directory
-                        let name = format!("{}l{}.zone", (b'a' + r.below(20) as u8) as char, files.len());
+                        fresh += 1;
+                        let name = format!("{}l{}.zone", (b'a' + r.below(20) as u8) as char, fresh);
                         let _ = std::os::unix::fs::symlink(zdir.join("does-not-exist"), zdir.join(&name));
                         files.push((name, FileState::Bad { text: Vec::new() }));
                     }
@@ -902,6 +905,8 @@ pub fn run_reload_blocked(r: &mut Rng, n: usize, out: &mut Out) {
 
 struct MockUpstream {
     log: Arc<Mutex<Vec<(DomainName, u16, bool)>>>,
+    /// names asked over TCP
+    tcp_log: Arc<Mutex<Vec<DomainName>>>,
     stop: Arc<std::sync::atomic::AtomicBool>,
 }
 
@@ -917,7 +922,9 @@ fn start_mock(port: u16, table: Option<Vec<(DomainName, Vec<ResourceRecord>)>>) 
     let sock = UdpSocket::bind(("127.0.0.1", port)).ok()?;
     sock.set_read_timeout(Some(Duration::from_millis(50))).ok()?;
     let log = Arc::new(Mutex::new(Vec::new()));
+    let tcp_log = Arc::new(Mutex::new(Vec::new()));
     let stop = Arc::new(std::sync::atomic::AtomicBool::new(false));
+    let table_tcp = table.clone();
     {
         let (log, stop) = (log.clone(), stop.clone());
         std::thread::spawn(move || {
@@ -930,6 +937,14 @@ fn start_mock(port: u16, table: Option<Vec<(DomainName, Vec<ResourceRecord>)>>) 
                 let Some(table) = &table else { continue };
                 let mut resp = q.make_response();
                 resp.header.recursion_available = true;
+                if question.name.labels.first().map_or(false, |l| l.octets().starts_with(b"big")) {
+                    // "does not fit": truncated over UDP, the answer is only available over TCP
+                    resp.header.is_truncated = true;
+                    if let Ok(bytes) = resp.to_octets() {
+                        let _ = sock.send_to(&bytes, peer);
+                    }
+                    continue;
+                }
                 match table.iter().find(|(n, _)| *n == question.name) {
                     Some((_, rrs)) => {
                         resp.answers = rrs
@@ -950,7 +965,47 @@ fn start_mock(port: u16, table: Option<Vec<(DomainName, Vec<ResourceRecord>)>>) 
             }
         });
     }
-    Some(MockUpstream { log, stop })
+    // the same data over TCP (one message per connection), logged with qtype | 0x8000_0000 marker in
+    // the RD position being impossible, a separate flag is kept in the name: see `tcp_log`
+    if let Some(table) = table_tcp {
+        if let Ok(listener) = TcpListener::bind(("127.0.0.1", port)) {
+            let _ = listener.set_nonblocking(true);
+            let (stop, tcp_log) = (stop.clone(), tcp_log.clone());
+            std::thread::spawn(move || {
+                while !stop.load(std::sync::atomic::Ordering::SeqCst) {
+                    let Ok((mut stream, _)) = listener.accept() else {
+                        std::thread::sleep(Duration::from_millis(5));
+                        continue;
+                    };
+                    let _ = stream.set_nonblocking(false);
+                    let _ = stream.set_read_timeout(Some(Duration::from_secs(2)));
+                    let mut len = [0u8; 2];
+                    if stream.read_exact(&mut len).is_err() {
+                        continue;
+                    }
+                    let mut msg = vec![0u8; u16::from_be_bytes(len) as usize];
+                    if stream.read_exact(&mut msg).is_err() {
+                        continue;
+                    }
+                    let Ok(q) = Message::from_octets(&msg) else { continue };
+                    let Some(question) = q.questions.first().cloned() else { continue };
+                    tcp_log.lock().unwrap().push(question.name.clone());
+                    let mut resp = q.make_response();
+                    resp.header.recursion_available = true;
+                    match table.iter().find(|(n, _)| *n == question.name) {
+                        Some((_, rrs)) => resp.answers = rrs.clone(),
+                        None => resp.header.rcode = Rcode::NameError,
+                    }
+                    if let Ok(bytes) = resp.to_octets() {
+                        let mut wire = (bytes.len() as u16).to_be_bytes().to_vec();
+                        wire.extend_from_slice(&bytes);
+                        let _ = stream.write_all(&wire);
+                    }
+                }
+            });
+        }
+    }
+    Some(MockUpstream { log, tcp_log, stop })
 }
 
 fn fwd_name(s: &str) -> DomainName {
@@ -999,6 +1054,9 @@ pub fn run_forward(r: &mut Rng, n: usize, out: &mut Out) {
                 a_rr(&names[0], 10, 300),
             ],
         ));
+        // a name whose answer is only available over TCP (the UDP reply is truncated)
+        let big = fwd_name("big.ext.");
+        table.push((big.clone(), vec![a_rr(&big, 99, 300)]));
         // the forwarder also has (wrong) data for names that are local: it must never be asked
         let local_host = fwd_name("h0.lan.");
         let blocked = fwd_name("blocked.ext.");
@@ -1040,6 +1098,7 @@ pub fn run_forward(r: &mut Rng, n: usize, out: &mut Out) {
                 3 => (blocked.clone(), "hosts"),
                 4 => (alias.clone(), "ext-alias"),
                 5 => (fwd_name("nx.ext."), "ext-unknown"),
+                6 => (big.clone(), "ext-tcp"),
                 _ => (r.pick(&names).clone(), "ext"),
             };
             let rd = !r.chance(1, 4);
@@ -1103,7 +1162,18 @@ pub fn run_forward(r: &mut Rng, n: usize, out: &mut Out) {
                             if !rd && !asked.is_empty() {
                                 v.push("fail:C09:recursion-without-rd".into());
                             }
-                            if rd && kind != "ext-unknown" {
+                            if rd && kind == "ext-tcp" {
+                                // truncated over UDP: the retry over TCP must reach the same forwarder, and its
+                                // answer is what the client gets
+                                if addrs != want(99) {
+                                    v.push("fail:C18:tcp-retry-answer-not-returned".into());
+                                } else if !answered.contains(&qname) {
+                                    if !fwd.tcp_log.lock().unwrap().contains(&qname) {
+                                        v.push("fail:C18:answer-without-tcp-exchange".into());
+                                    }
+                                    answered.push(qname.clone());
+                                }
+                            } else if rd && kind != "ext-unknown" {
                                 let idx = if kind == "ext-alias" { 0 } else { names.iter().position(|x| *x == qname).unwrap() };
                                 if addrs != want(10 + idx as u8) {
                                     v.push(if asked.is_empty() && !cached { "fail:C18:forwarder-not-contacted".into() } else { "fail:C18:forwarders-answer-not-returned".into() });
